@@ -185,7 +185,13 @@ char ZCK_PUBLIC_API *zck_get_range_char(zckCtx *zck, zckRange *range) {
         count++;
         ri = ri->next;
     }
-    output[loc-1]='\0'; // Remove final comma
+    if(loc == 0) {
+        /* No ranges at all: empty string */
+        output[0] = '\0';
+        loc = 1;
+    } else {
+        output[loc-1]='\0'; // Remove final comma
+    }
     output = zrealloc(output, loc);
     return output;
 }
